@@ -40,6 +40,7 @@ BUILTIN_EXC = {
     "TypeError": "Exception", "StopIteration": "Exception", "RuntimeError": "Exception",
     "NotImplementedError": "RuntimeError", "RecursionError": "RuntimeError", "AssertionError": "Exception",
     "UserWarning": "Exception", "ArithmeticError": "Exception", "ZeroDivisionError": "ArithmeticError",
+    "OSError": "Exception",
 }
 BUILTIN_TYPES = {"str", "int", "bool", "list", "dict", "set", "tuple", "type", "object", "NoneType"}
 
@@ -1039,6 +1040,13 @@ class Engine:
                 # A-EXT: a method of a third-party object returns a value of its declared kind or raises some Exception; it
                 # writes nothing the repository's objects can see
                 ret = getattr(self, "ext_methods", {}).get(f.payload)
+                if ret is None and f.payload in ("read", "write"):
+                    # methods of a file object (A-IO)
+                    s_exc = st.copy()
+                    s_exc.trace.append(f"io.{f.payload}:raises")
+                    outs = self.raise_new(s_exc, "OSError")
+                    res = SStr(fresh("file_text", z3.StringSort())) if f.payload == "read" else SInt(fresh("written", z3.IntSort()))
+                    return outs + k(st, res)
                 if ret is None:
                     raise EngineError(f"third-party method {f.payload} has no assumed contract (api.external_method)")
                 self.trusted_used.add(f"A-EXT: third-party method .{f.payload}() returns {ret} or raises an Exception, writes nothing modelled")
@@ -1546,7 +1554,22 @@ class Engine:
         return self.branch(st, cond, handle, lambda s: self.dispatch_handlers(handlers, i + 1, s, exc, fr, k), "except")
 
     def ex_With(self, n, st, fr, k):
-        raise EngineError("with-statement (file I/O) is outside the modelled subset")
+        """`with open(...) as f:` -- the file object is an opaque external object (A-IO): opening may raise OSError, its
+        read() returns some str, write(s) returns some int, either may raise OSError; nothing modelled is written.  The
+        body runs once; leaving the block (normally or by an exception) closes the file and changes nothing modelled."""
+        if len(n.items) != 1 or not (isinstance(n.items[0].context_expr, ast.Call) and isinstance(n.items[0].context_expr.func, ast.Name)
+                                     and n.items[0].context_expr.func.id == "open"):
+            raise EngineError("with-statement other than `with open(...)` is outside the modelled subset")
+        item = n.items[0]
+        self.trusted_used.add("A-IO: open() returns an opaque file object or raises OSError; read() returns a str, write() an int, either may raise OSError; no modelled object is written")
+
+        def opened(s, _args):
+            outs = self.raise_new(s.copy(), "OSError")
+            fobj = SRef(fresh("file", z3.IntSort()), "ext")
+            if item.optional_vars is not None:
+                return outs + self.assign(item.optional_vars, fobj, s, fr, lambda s2: self.ex(n.body, s2, fr, k))
+            return outs + self.ex(n.body, s, fr, k)
+        return self.ev_list(list(item.context_expr.args) + [kw.value for kw in item.context_expr.keywords], st, fr, opened)
 
     # loops: see loops.py (mixed in)
 
